@@ -493,7 +493,7 @@ static void DecodeFLOAT(Word Extended) {
     Word    Exponent, Word0, Word1, Word2;
     Integer SignedExponent;
 
-    if (!ChkArgCnt(1, ArgCntMax)) {
+    if (!ChkArgCnt(1, ArgCntMax) || !SetMaxCodeLenForArgs()) {
         return;
     }
 
